@@ -25,27 +25,55 @@ def decCivilTime (s : String) : Option CivilTime :=
   | some [y, mo, d, h, mi, sec] => some ⟨y, mo, d, h, mi, sec⟩
   | _ => none
 
+def decKind (kind : String) (a b : Int) : Option LocalResult :=
+  if kind = "s" then some (.single a)
+  else if kind = "a" then some (.ambiguous a b)
+  else if kind = "n" then some .none
+  else none
+
+/-- `y,mo,d,h,mi,s,L` (L may be `-`) or `-` -/
+def decTarget (s : String) : Option (Option CivilTime × Option Int) :=
+  if s = "-" then some (none, none) else
+  match splitOnChar ',' s with
+  | [y, mo, d, h, mi, sec, l] =>
+    match mapM? decInt [y, mo, d, h, mi, sec], decOpt decInt l with
+    | some [y, mo, d, h, mi, sec], some l => some (some ⟨y, mo, d, h, mi, sec⟩, l)
+    | _, _ => none
+  | _ => none
+
+def decTblRow (s : String) : Option (Int × LocalResult) :=
+  match splitOnChar ':' s with
+  | [l, k, a, b] =>
+    match decInt l, decInt a, decInt b with
+    | some l, some a, some b => (decKind k a b).map fun r => (l, r)
+    | _, _, _ => none
+  | _ => none
+
 def decFacts (s : String) : Option Facts :=
   match splitOnChar ';' s with
-  | [civ, lnow, offNow, mk, offTrunc, offRes, chg, rciv] =>
+  | [civ, lnow, offNow, mk, offTrunc, offRes, chg, rciv, tgt, tbl] =>
     match decInts ',' civ, decInt lnow, decInt offNow, splitOnChar ',' mk,
-        decOpt decInt offTrunc, decOpt decInt offRes, decOpt decBool chg, decOpt decCivilTime rciv with
+        decOpt decInt offTrunc, decOpt decInt offRes, decOpt decBool chg, decOpt decCivilTime rciv,
+        decTarget tgt, mapM? decTblRow (decList ',' tbl) with
     | some [y, m0, d, o0, w0, wd, h, mi, sec], some lnow, some offNow, [qy, qmo, qd, qh, qmi, qs, kind, a, b],
-        some offTrunc, some offRes, some chg, some rciv =>
+        some offTrunc, some offRes, some chg, some rciv, some (tgtCivil, tgtLocal), some tbl =>
       match mapM? decInt [qy, qmo, qd, qh, qmi, qs, a, b] with
       | some [qy, qmo, qd, qh, qmi, qs, a, b] =>
         let args : CivilTime := ⟨qy, qmo, qd, qh, qmi, qs⟩
         let r : Option (Option CivilTime × LocalResult) :=
-          if kind = "s" then some (some args, .single a)
-          else if kind = "a" then some (some args, .ambiguous a b)
-          else if kind = "n" then some (some args, .none)
-          else if kind = "x" then some (none, .none)
-          else none
+          if kind = "x" then some (none, .none) else (decKind kind a b).map fun r => (some args, r)
         r.map fun (mkArgs, mkRes) =>
-          { civ := ⟨y, m0, d, o0, w0, wd, h, mi, sec⟩, lnow, offNow, mkArgs, mkRes, offTrunc, offRes, chg, rciv }
+          { civ := ⟨y, m0, d, o0, w0, wd, h, mi, sec⟩, lnow, offNow, mkArgs, mkRes, offTrunc, offRes, chg, rciv,
+            tgtCivil, tgtLocal, tbl }
       | _ => none
-    | _, _, _, _, _, _, _, _ => none
+    | _, _, _, _, _, _, _, _, _, _ => none
   | _ => none
+
+/-- chrono as the repaired algorithm sees it, from the observed facts -/
+def envOf (f : Facts) : Env :=
+  { L := f.lnow, now := f.now,
+    naiveOf := fun q => if some q = f.tgtCivil then f.tgtLocal else none,
+    mkL := fun l => (f.tbl.lookup l).getD .none }
 
 /-- `P.<class>` or UTC seconds -/
 def decResult (s : String) : Option (Option Int) :=
@@ -58,6 +86,10 @@ def renderOut : Out Int → String
 
 /-- the model's schedule at one instant, fed with chrono's answers as observed -/
 def modelNext (f : Facts) (u : IUnit) (n : Int) (modulate : Bool) : Except String (Out Int) :=
+  if codeFixed then
+    if isCalendarUnit u ∧ targetCivilFixed f.civ u n modulate ≠ f.tgtCivil then .error "target-mismatch"
+    else .ok (getNextTimeFixed f.civ (envOf f) u n modulate)
+  else
   let q := mkQuery f.civ u n modulate
   if q ≠ f.mkArgs then
     .error ("mk-mismatch:" ++ (match q with
@@ -109,6 +141,11 @@ def tclauseName : TClause → String
 def unitName : IUnit → String
   | .second => "second" | .minute => "minute" | .hour => "hour" | .day => "day"
   | .week => "week" | .month => "month" | .year => "year"
+
+/-- the wider input region of F12: day/week schedule computed across an offset change (the current
+code adds absolute days there; the statement itself only fails in part of this region) -/
+def acrossTag (u : IUnit) (fs : List Facts) : List String :=
+  if (u = .day ∨ u = .week) ∧ fs.any (fun f => f.chg = some true) then ["day-week-across-offset-change"] else []
 
 def factTags (f : Facts) : List String :=
   (match f.mkRes, f.mkArgs with
@@ -169,6 +206,7 @@ def handleNext (secs : Int) (u : IUnit) (n : Int) (modulate : Bool) (obs : List 
       let model := rf ++ " " ++ renderNext b.facts u n modulate secs
       let spec := (verdictNext b.facts u n modulate b.result "").getD "ok"
       let tags := ["next", unitName u, if modulate then "modulated" else "plain"] ++ factTags b.facts ++
+        acrossTag u [b.facts] ++
         (if n < 1 then ["n-below-1"] else if absurdN u n then ["n-absurd"] else if n = 1 then ["n-1"] else ["n-many"]) ++
         (if b.result.isNone then ["impl-panics"] else [])
       { model, spec, tags }
@@ -202,73 +240,72 @@ def handleTrig (secs : Int) (u : IUnit) (n : Int) (modulate : Bool) (maxDelay : 
         let d0 : Int := match implS0, b0.result with
           | some s, some r => s - r
           | _, _ => 0
-        let sched0 := schedule next0 maxDelay d0
-        match sched0 with
-        | .ok s =>
-          -- per arrival
-          let entries := restObs.take arrivals.length
-          let segObs := restObs.drop arrivals.length
-          if entries.length ≠ arrivals.length ∨ segObs.length ≠ 1 then
-            { model := head ++ renderOut sched0 ++ " (arity)", spec := (blockVerdict.getD "ok") } else
-          let tobs := entries.map decTrigObs
-          let steps : List (Int × Out Int) := (arrivals.zip (bs.zip tobs)).map fun ((a, _), (b, o)) =>
-            let nx : Out Int := match modelNext b.facts u n modulate with
-              | .ok o => o
-              | .error e => .panic e
-            let d : Int := match o, b.result with
-              | some (true, after), some r => after - r
-              | _, _ => 0
-            (a, schedule nx maxDelay d)
-          let outs := run (.live s) steps
-          let rendered := outs.map fun (o, st) => match o, st with
-            | .ok fired, .live t => encBool fired ++ ":" ++ toString t
-            | .ok _, .poisoned => "?"
-            | .err _, _ => "E"
-            | .panic w, _ => "P." ++ w
-          let flags := outs.map fun (o, _) => match o with
-            | .ok fired => some fired
-            | _ => none
-          let segs := if arrivals.isEmpty then "-" else renderSegs (segment flags)
-          let model := head ++ " ".intercalate (toString s :: rendered ++ [segs])
-          -- spec on the implementation's observation
-          let trigVerdict : Option String :=
-            match implS0 with
-            | none => some "FAIL:at-creation:trigger-panics;sig=C16/trigger-creation-panics"
-            | some is0 =>
-              if ¬ delayOk maxDelay d0 then some "FAIL:at-creation:random-delay-out-of-range;sig=C16/delay-out-of-range" else
-              let walk := checkTrigger maxDelay is0
-                ((arrivals.zip (bs.zip tobs)).map fun ((a, _), (b, o)) => (a, b.result, o))
-              match walk with
-              | some (i, c) =>
-                let sig := match c with
-                  | .panics =>
-                    -- poisoned lock: the class of the first panic
-                    let firstPanic := (bs.zip tobs).find? fun (_, o) => o.isNone
-                    match firstPanic with
-                    | some (b, _) => sigNext b.facts u n .panics
-                    | none => "C16/trigger-panics"
-                  | .reschedNotFuture => match bs[i]? with
-                    | some b => sigNext b.facts u n .notAfterNow
-                    | none => "C16/trigger"
-                  | c => "C16/trigger-" ++ tclauseName c
-                some (s!"FAIL:at-arrival-{i + 1}:" ++ tclauseName c ++ ";sig=" ++ sig)
-              | none =>
-                let implFlags := tobs.map fun o => o.map (·.1)
-                let wantSegs := if arrivals.isEmpty then "-" else renderSegs (segment implFlags)
-                if segObs ≠ [wantSegs] then some ("FAIL:files-not-cut-before-the-firing-record expected " ++ wantSegs ++ ";sig=C16/trigger-segmentation")
-                else none
-          let nonDecreasing := (arrivals.zip (arrivals.drop 1)).all fun ((a, an), (b, bn)) => a < b ∨ (a = b ∧ an ≤ bn)
-          let firedCount := (tobs.filter fun o => match o with | some (true, _) => true | _ => false).length
-          let tags := ["trig", unitName u, if modulate then "modulated" else "plain",
-              if maxDelay > 0 then "delay" else "no-delay", s!"fired-{firedCount}",
-              if nonDecreasing then "monotone" else "clock-steps-back"] ++
-            ((b0 :: bs).flatMap fun b => factTags b.facts).eraseDups ++
-            (if tobs.any (·.isNone) then ["impl-panics"] else [])
-          { model, spec := (blockVerdict <|> trigVerdict).getD "ok", tags }
-        | o =>
-          let model := head ++ renderOut o
-          let spec := (blockVerdict.getD "FAIL:at-creation:trigger-panics;sig=C16/trigger-creation-panics")
-          { model, spec, tags := ["trig", unitName u, "creation-panics"] ++ factTags b0.facts }
+        let sched0 := (if codeFixed then scheduleFixed else schedule) next0 maxDelay d0
+        -- what the implementation reported after the marker (nothing more when creation panicked)
+        let entries := restObs.take arrivals.length
+        let segObs := restObs.drop arrivals.length
+        let shapeOk : Bool := entries.length = arrivals.length ∧ segObs.length = 1
+        let tobs : List TrigObs := (entries.map decTrigObs) ++ List.replicate (arrivals.length - entries.length) none
+        -- the model's run, fed with the observed random delays
+        let model := match sched0 with
+          | .ok s =>
+            let steps : List (Int × Out Int) := (arrivals.zip (bs.zip tobs)).map fun ((a, _), (b, o)) =>
+              let nx : Out Int := match modelNext b.facts u n modulate with
+                | .ok o => o
+                | .error e => .panic e
+              let d : Int := match o, b.result with
+                | some (true, after), some r => after - r
+                | _, _ => 0
+              (a, (if codeFixed then scheduleFixed else schedule) nx maxDelay d)
+            let outs := (if codeFixed then runFixed else run) (.live s) steps
+            let rendered := outs.map fun (o, st) => match o, st with
+              | .ok fired, .live t => encBool fired ++ ":" ++ toString t
+              | .ok _, .poisoned => "?"
+              | .err _, _ => "E"
+              | .panic w, _ => "P." ++ w
+            let flags := outs.map fun (o, _) => match o with
+              | .ok fired => some fired
+              | _ => none
+            let segs := if arrivals.isEmpty then "-" else renderSegs (segment flags)
+            head ++ " ".intercalate (toString s :: rendered ++ [segs])
+          | o => head ++ renderOut o
+        -- the specification on the implementation's observation
+        let trigVerdict : Option String :=
+          match implS0 with
+          | none => some "FAIL:at-creation:trigger-panics;sig=C16/trigger-creation-panics"
+          | some is0 =>
+            if ¬ shapeOk then some "FAIL:observation-incomplete;sig=C16/trigger-observation" else
+            if ¬ delayOk maxDelay d0 then some "FAIL:at-creation:random-delay-out-of-range;sig=C16/delay-out-of-range" else
+            let walk := checkTrigger maxDelay is0
+              ((arrivals.zip (bs.zip tobs)).map fun ((a, _), (b, o)) => (a, b.result, o))
+            match walk with
+            | some (i, c) =>
+              let sig := match c with
+                | .panics =>
+                  -- poisoned lock: the class of the first panic
+                  let firstPanic := (bs.zip tobs).find? fun (_, o) => o.isNone
+                  match firstPanic with
+                  | some (b, _) => sigNext b.facts u n .panics
+                  | none => "C16/trigger-panics"
+                | .reschedNotFuture => match bs[i]? with
+                  | some b => sigNext b.facts u n .notAfterNow
+                  | none => "C16/trigger"
+                | c => "C16/trigger-" ++ tclauseName c
+              some (s!"FAIL:at-arrival-{i + 1}:" ++ tclauseName c ++ ";sig=" ++ sig)
+            | none =>
+              let implFlags := tobs.map fun o => o.map (·.1)
+              let wantSegs := if arrivals.isEmpty then "-" else renderSegs (segment implFlags)
+              if segObs ≠ [wantSegs] then some ("FAIL:files-not-cut-before-the-firing-record expected " ++ wantSegs ++ ";sig=C16/trigger-segmentation")
+              else none
+        let nonDecreasing := (arrivals.zip (arrivals.drop 1)).all fun ((a, an), (b, bn)) => a < b ∨ (a = b ∧ an ≤ bn)
+        let firedCount := (tobs.filter fun o => match o with | some (true, _) => true | _ => false).length
+        let tags := ["trig", unitName u, if modulate then "modulated" else "plain",
+            if maxDelay > 0 then "delay" else "no-delay", s!"fired-{firedCount}",
+            if nonDecreasing then "monotone" else "clock-steps-back"] ++
+          ((b0 :: bs).flatMap fun b => factTags b.facts).eraseDups ++ acrossTag u ((b0 :: bs).map (·.facts)) ++
+          (if n < 1 then ["n-below-1"] else []) ++
+          (if implS0.isNone then ["creation-panics", "impl-panics"] else if (entries.map decTrigObs).any (·.isNone) then ["impl-panics"] else [])
+        { model, spec := (blockVerdict <|> trigVerdict).getD "ok", tags }
 
 def handle : Handler := fun cas obs =>
   let obs := obs.flatMap (splitOnChar ' ')
